@@ -276,7 +276,7 @@ def writeset(ctx):
     w = frame.field_writers(ctx.facts, CH)
     for f, e in exp.items():
         got = w.get(f, set()) | w.get('*', set())
-        extra = sorted(x for x in got if x[0] not in e)      # (entry paths are canonical: no generic argument lists)
+        extra = sorted(x for x in got if x[0] not in e and not frame.rebuild_keeps(ctx, x, f, got))      # (entry paths are canonical: no generic argument lists)
         private = 'Restricted' in vis.get(f, '')
         ctx.check('C04.freeze.writers', A, f, not extra and private, expected='written only by %s (private helpers count for the entry points that reach them); field private' % sorted(e),
                   found='%s; visibility %s' % (sorted(got) if not extra else 'also written by %s' % extra, vis.get(f)), sp=None,
